@@ -43,6 +43,8 @@ def run(ctx):
                           "validator when the bytes are UTF-8 and the CBOR validator otherwise", floor=5)
     ctx.rule("C18.features", "every call of validate_json_from_str / validate_cbor_from_slice / validate_csv_from_str that takes a features "
                              "argument passes a value derived from validate.features (enabled_features), never a literal None", floor=5)
+    ctx.rule("C18.fresh", "inside a per-file loop the document argument of the library call is built only from variables declared in that loop "
+                          "iteration (the loop variable or locals of the loop body): each file is validated on its own content", floor=3)
     ctx.rule("C18.header", "validate_csv_from_str's header argument derives from validate.csv_header", floor=1)
     ctx.rule("C18.ci", "every `!p.exists()` branch and every Err arm of a library result expands error!(cli.ci, ..); the error! macro logs "
                        "and, when its first argument is true, returns Err; compile-cddl applies `?` to cddl_from_str", floor=8)
@@ -76,6 +78,20 @@ def run(ctx):
             want = {"json": ROUTES["json"], "cbor": ROUTES["cbor"], "csv": ROUTES["csv"], "stdin-utf8": ROUTES["json"], "stdin-binary": ROUTES["cbor"]}.get(route)
             if want is None or want != fn:
                 ctx.violation("C18.route", key, CLI, n["l"], "route %s calls %s (expected %s)" % (route, fn, want))
+            # the document argument must be read freshly for each file: a variable declared inside the innermost enclosing loop
+            loops = [a for a in anc if a["k"] == "for"]
+            if loops and len(n["a"]) >= 2:
+                doc = n["a"][1]
+                names = [x["p"] for x in vf.walk(doc) if x["k"] == "path" and "::" not in x["p"]]
+                body_locals = set()
+                for loc in vf.find(loops[-1]["b"], "local"):
+                    body_locals |= set(vf.pat_bindings(loc["pat"]))
+                loopvars = set(vf.pat_bindings(loops[-1]["pat"]))
+                ctx.site("C18.fresh", key, CLI, n["l"], {"document_arg": vf.src(doc), "declared_in_loop": sorted(set(names) & (body_locals | loopvars))})
+                for nm in names:
+                    if nm not in body_locals and nm not in loopvars and nm not in ("fs", "file"):
+                        ctx.violation("C18.fresh", key, CLI, n["l"], "%s route: the document passed to %s (`%s`) uses `%s`, which outlives one loop iteration: "
+                                      "what is validated for a file can depend on the files before it" % (route, fn, vf.src(doc), nm))
             if cfgk == "addl":
                 last = n["a"][-1] if n["a"] else None
                 ctx.site("C18.features", key, CLI, n["l"], {"features_arg": vf.src(last)})
